@@ -210,8 +210,10 @@ CLAIMS.update({
         'primitive (time / random / id / hash / environment / set iteration) outside the documented timestamp sites. Frame obligations: encode, encode_sequence, '
         'matrix_iter, matrix_iter_verbose, matrix_to_lines are executed by the pyvc interpreter with a mutation hook on representative inputs: every mutated object '
         'was allocated inside the call. Determinism + empty write frame => history freedom and schedule independence (argued, thread interleavings are not explored). '
-        'BOUNDED (labelled): module-table snapshots, reordered histories, 16 concurrent threads, serialisation leaves the symbol unchanged, and re-encoding with the '
-        'chosen (version, level, mask) and boosting disabled reproduces the matrix, on seeded native calls.',
+        'BOUNDED (labelled): native battery in fresh interpreters (every call after every other call equals the fresh result for ~60 calls that differ in what a cache key could forget; '
+        '16 threads on one symbol size in a cold interpreter; systematic schedules: thread B runs completely while thread A is suspended at the entry of its k-th encoder function, every k), '
+        'table snapshots, reordered histories, serialisation leaves the symbol unchanged, idempotent re-encoding. The scans are SUFFICIENT conditions: if one fails and the battery sees no '
+        'behavioural difference the run is undecided (exit 2), not a violation.',
    note='Not a proof of thread safety: no interleaving semantics. The scan is syntactic (a write through a local alias of a module level object is only seen by the frame hook on '
         'interpreted paths and by the bounded snapshots). Idempotence is bounded only.',
    technique='contract-style frame (assigns-nothing) obligations: package-wide syntactic write / nondeterminism scan + interpreter mutation hook; bounded native stand-ins for histories, threads and idempotence',
